@@ -277,6 +277,35 @@ def check_rfc2822(acc, pendulum, off_min):
             acc.mismatch("non-strict", "rfc2822-offset-value", {"kind": "rfc", "off": off_min, "s": text, "opts": opts}, got, want)
 
 
+def check_tz_number(acc, pendulum, off_min):
+    """tz= given as a NUMBER of hours (int, or float for the other whole-minute offsets): the value carries exactly that
+    offset - nothing truncated or wrapped - or the call raises ValueError."""
+    h = off_min // 60 if off_min % 60 == 0 and (off_min // 60) % 2 else off_min / 60
+    want = ["DateTime", [2016, 10, 6, 12, 34, 56, 0], off_min * 60]
+    for text in ("2016-10-06T12:34:56", "2016-10-06 12:34:56"):
+        acc.c["evaluations"] += 1
+        try:
+            r = pendulum.parse(text, tz=h)
+            got = [type(r).__name__, list(obs.fields(r)), obs.offset_s(r)]
+        except ValueError:
+            got = ["ValueError"]
+        except Exception as e:  # noqa: BLE001
+            got = ["EXC", type(e).__name__]
+        if got != want:
+            acc.mismatch("tz-option", "numeric-hours-value", {"kind": "tznum", "off": off_min, "s": text}, got, want)
+    acc.c["evaluations"] += 1
+    try:
+        iv = pendulum.parse("2016-10-06T12:34:56/PT1H", tz=h)
+        got = [type(iv).__name__, obs.offset_s(iv.start), obs.offset_s(iv.end), obs.td_us(iv)]
+    except ValueError:
+        got = ["ValueError"]
+    except Exception as e:  # noqa: BLE001
+        got = ["EXC", type(e).__name__]
+    if got != ["Interval", off_min * 60, off_min * 60, 3600 * 10 ** 6]:
+        acc.mismatch("tz-option", "numeric-hours-interval", {"kind": "tznum", "off": off_min, "s": "2016-10-06T12:34:56/PT1H"}, got,
+                     ["Interval", off_min * 60, off_min * 60, 3600 * 10 ** 6])
+
+
 def check_tz_gap(acc, pendulum, z, f):
     from ..ref import tzref
     kind, inst = tzref.normalize(tzref.zone(z), tuple(f), 1)
@@ -382,6 +411,7 @@ def run_shard(shard):
             # length of the gap), not one computed from a truncated or wrapped gap length
             for off in range(-1439, 1440):
                 check_rfc2822(acc, pendulum, off)
+                check_tz_number(acc, pendulum, off)
             for z in ("Pacific/Apia", "Pacific/Kiritimati", "Pacific/Kwajalein", "Europe/Paris", "Australia/Lord_Howe", "America/Sao_Paulo"):
                 gaps = [tr for tr in seeds.zone_transitions(z) if tr[2] > tr[1] and -2000000000 < tr[0] < 2000000000]
                 big = [tr for tr in gaps if tr[2] - tr[1] >= 86400]
@@ -406,6 +436,9 @@ def replay_case(case, acc):
     pendulum, swap = _setup()
     if case.get("kind") == "rfc":
         check_rfc2822(acc, pendulum, case["off"])
+        return
+    if case.get("kind") == "tznum":
+        check_tz_number(acc, pendulum, case["off"])
         return
     if case.get("kind") == "tzgap":
         check_tz_gap(acc, pendulum, case["z"], tuple(case["f"]))
